@@ -219,3 +219,22 @@ func csReplay(c *runCtx, raw json.RawMessage) string {
 
 	return failure
 }
+
+// anyReplay dispatches a replay file to the engine that produced it.
+func anyReplay(c *runCtx, raw json.RawMessage) string {
+	var doc struct {
+		Engine string `json:"engine"`
+	}
+	_ = json.Unmarshal(raw, &doc)
+	if doc.Engine == "cs" {
+		return csReplay(c, raw)
+	}
+
+	return vtReplay(c, raw)
+}
+
+func init() {
+	for _, p := range []string{"C08", "C12", "C15"} {
+		vReplayers[p] = anyReplay
+	}
+}
